@@ -325,6 +325,13 @@ impl Exec {
                 self.insts.insert(id, Inst::Heap(CMSHeap::new(pu(t[2]) as usize, cms)));
                 return "ok".into();
             }
+            "heap.props" => {
+                // the sketch is sized from (epsilon, delta) by the convenience constructor
+                let cms = CountMinSketch::<HKey>::with_point_query_properties(pf(t[3]), pf(t[4]));
+                let s = format!("ok {} {}", cms.w(), cms.d());
+                self.insts.insert(id, Inst::Heap(CMSHeap::new(pu(t[2]) as usize, cms)));
+                return s;
+            }
             "td.new" => {
                 let delta = pf(t[3]);
                 let bl = pu(t[4]) as usize;
